@@ -20,7 +20,9 @@ TRUSTED = ["harness/h_C12.cpp + h_C12_app.h + h_C12_node.inc: the application fa
            "library's own scanner (rtosc_scan_message + arg-val iterator) to read the saved lines back",
            "tools/props/save_common.py: rendering of one abstract application as port tables (harness), flat port list and "
            "apropos table (model), and the Python reference semantics used by the Spec oracle",
-           "Section hypotheses of coq/Save/SaveProofs.v (statements of C04/C09/C10/C16, see notes/C12.md)"]
+           "ocaml/C12/driver.ml pt_of_case: the case's port tree as a TreeApp.pt (names and structure from the tree field, leaf "
+           "data from the flat application)",
+           "per-line premise line_reads of C12_roundtrip_tree_real_partial for lines outside C10's goodc fragment (see notes/C12.md stage 5)"]
 ASSUMPTIONS = ["the application is well formed: defaults inside the declared range, a preset selector has a plain default, "
                "sibling names are prefix-free, float defaults are written as exact decimals, no NaN",
                "state = the parameters the walk reaches (parameters below a switched-off enabled-by toggle are not part of it)"]
@@ -179,6 +181,11 @@ def gen_rej(rng, app, ref, tree, flat, apro):
 
 # ---------------------------------------------------------------------------
 def canon(case, line):
+    if line.startswith("TREEMODEL("):
+        # the model driver evaluated the tree stages of Save/TreeApp.v for this case (flattening of the port
+        # tree = the case's application, names_ok, walk with the runtime object = the live ports, the saved
+        # lines dispatched on the tree = apply_line) and one of them does not hold: a disagreement
+        return line[:200]
     if line.startswith("UNDECLARED "):
         # the model driver evaluated `declared a (apropos_of_tree root)` for this application and it does
         # not hold (hypothesis of C13_perm_invariant / C12's sorted pipeline): shown as a disagreement
@@ -282,7 +289,13 @@ LEVEL_TEXT = ("For every abstract application and state: a line is saved exactly
               "proved for the abstract application incl. pointer sub-trees and #N arrays under wf_app + stable state "
               "(C12_roundtrip_abstract) and through the pipeline real_load (real_save st) with the sort stage (C13's scan_deps + Kahn "
               "model, C13_topo) and the value-equality stage (C16's vals_eq model, C16_eq_is_key_equality) instantiated "
-              "(C12_roundtrip_pipeline_sorted_eq_partial); the walk (C09), print/scan (C10) and dispatch (C04+C14) stages are still "
-              "hypotheses stated at the abstract level.")
-LEVEL_NOTE = ("abstract application (printing/scanning, walk, dispatch are data of the model: C10/C09/C04); the real pipeline is tied to the "
-              "model by the correspondence run; see notes/C12.md (stage 4) for the remaining stage hypotheses")
+              "(C12_roundtrip_pipeline_sorted_eq_partial). For applications that ARE port trees of macro-made ports (app_of_tree t, "
+              "Save/TreeApp.v: parameter leaves, embedded / enumerated / pointer sub-trees of one component, 'enabled by' a toggle of the "
+              "parent table; names_ok) every stage is the model of the code that implements it (C12_roundtrip_tree_real_partial): the walk "
+              "with the runtime object (C09, C12_walk_stage), the dispatch of every saved line to the tree with the macros' callbacks "
+              "(C04 + C14, C12_dispatch_elem / C12_dispatch_stage), print/scan of the body (C10, C12_body_scans); what remains assumed of a "
+              "stage is per saved line outside C10's goodc fragment (floats, plain option symbols, [..] array lines): line_reads. "
+              "C12_eq_stage_array: the 'a'-header comparison of #N ports.")
+LEVEL_NOTE = ("the differential run is against the abstract application; on every save case whose tree is inside TreeApp.v's class the model "
+              "driver also evaluates the tree stages (flattening = the case's application, walk_tree = live ports, saved lines dispatched on "
+              "the tree = apply_line) and marks the case when one fails; see notes/C12.md (stage 5) for the remaining premises")
